@@ -36,7 +36,7 @@ def proj(m):
     return out
 
 
-def run_filter(h, words, dct, ncat, cats, rng, position_coded, dup=False, single=False, neginf=0.0, neg8=None):
+def run_filter(h, words, dct, ncat, cats, rng, position_coded, dup=False, single=False, neginf=0.0, neg8=None, layout='C'):
     from depccg.types import Token, ScoringResult
     doc = [[Token.of_word(w) for w in sent] for sent in words]
     scores = []
@@ -52,6 +52,19 @@ def run_filter(h, words, dct, ncat, cats, rng, position_coded, dup=False, single
             # log-probabilities of impossible tags / heads
             tag[np.array([[rng.random() < neginf for _ in range(ncat)] for _ in range(n)])] = -np.inf
             dep[np.array([[rng.random() < neginf / 2 for _ in range(n + 1)] for _ in range(n)])] = -np.inf
+        if layout == 'F':
+            tag = np.asfortranarray(tag)
+        elif layout == 'slice':
+            # the tag matrix is a column slice of a wider (padded) matrix
+            wide = np.full((n, ncat + 5), -7.0, dtype=np.float32)
+            wide[:, 2:2 + ncat] = tag
+            tag = wide[:, 2:2 + ncat]
+        elif layout == 'strided':
+            tall = np.full((2 * n, ncat), -7.0, dtype=np.float32)
+            tall[::2] = tag
+            tag = tall[::2]
+        elif layout == 'T':
+            tag = np.ascontiguousarray(tag.T).T
         scores.append(ScoringResult(tag, dep))
     kw = {} if neg8 is None else {'large_negative_value': neg8 / 8.0}
     tag_in = [proj(s.tag_scores) for s in scores]
@@ -113,7 +126,8 @@ def run(tier):
         words = [[rng.choice(vocab) for _ in range(rng.randint(1, 6))] for _ in range(rng.randint(1, 4))]
         dct = {w: sorted(rng.sample(range(1, ncat + 1), rng.randint(0, min(ncat, 6)))) for w in rng.sample(vocab, rng.randint(0, 8))}
         ev = run_filter(h, words, dct, ncat, cats, rng, False, dup=rng.random() < 0.3, single=len(words) == 1 and rng.random() < 0.7,
-                        neginf=rng.choice([0.0, 0.0, 0.1, 0.4]), neg8=rng.choice([None, None, -32768, -8000]))
+                        neginf=rng.choice([0.0, 0.0, 0.1, 0.4]), neg8=rng.choice([None, None, -32768, -8000]),
+                        layout=rng.choice(['C', 'C', 'F', 'slice', 'strided', 'T']))
         add(ev, {'words': words, 'dict': {w: len(c) for w, c in dct.items()}, 'ncat': ncat, 'src': 'random'})
     # shipped strings: well-formed, and dictionary categories belong to the inventory (by value)
     n_ship = 0
